@@ -9,7 +9,8 @@ def sh(cmd, cwd=None):
     return r.returncode, (r.stdout + r.stderr)
 if not os.path.isdir(WT):
     print(sh(f'git -C /repo worktree add -q --detach {WT} HEAD'))
-only = sys.argv[2:] 
+TAG = sys.argv[2] if len(sys.argv) > 2 else ''
+only = sys.argv[3:] 
 for pid in sorted(os.listdir(SRC)):
     d = os.path.join(SRC, pid)
     if not os.path.isdir(d) or not pid.startswith('C'): continue
@@ -17,7 +18,7 @@ for pid in sorted(os.listdir(SRC)):
     for k in sorted(os.listdir(d)):
         sd = os.path.join(d, k)
         if not os.path.isfile(os.path.join(sd, 'patch.diff')): continue
-        dest = f'/verif/seeded/{pid}-{k}'
+        dest = f'/verif/seeded/{pid}-{TAG}{k}'
         if os.path.isdir(dest): continue
         sh('git checkout -q -- . && git clean -fdq', WT)
         rc, out = sh(f'git apply {sd}/patch.diff', WT)
